@@ -30,9 +30,10 @@ Singles(n) == {{x} : x \in 0..(n - 1)}
 BlkOf(P, x) == CHOOSE b \in P : x \in b
 Mrg(P, a, b) == IF BlkOf(P, a) = BlkOf(P, b) THEN P
                 ELSE (P \ {BlkOf(P, a), BlkOf(P, b)}) \cup {BlkOf(P, a) \cup BlkOf(P, b)}
-RECURSIVE PartAfter(_, _, _)
-PartAfter(P, ops, i) == IF i > Len(ops) THEN P
-                        ELSE PartAfter(IF ops[i][1] = "u" THEN Mrg(P, ops[i][2], ops[i][3]) ELSE P, ops, i + 1)
+\* a fold, not a recursion: TLC passes arguments unevaluated, a recursion over a
+\* long history nests one thunk per operation and overflows the Java stack
+PartAfter(P, ops, i) ==
+  FoldLeft(LAMBDA acc, op : IF op[1] = "u" THEN Mrg(acc, op[2], op[3]) ELSE acc, P, SubSeq(ops, i, Len(ops)))
 RetAt(n, ops, i) == LET P == PartAfter(Singles(n), SubSeq(ops, 1, i - 1), 1) IN
                     IF ops[i][1] = "f" THEN "found"
                     ELSE IF BlkOf(P, ops[i][2]) = BlkOf(P, ops[i][3]) THEN "same" ELSE "merged"
